@@ -593,13 +593,17 @@ def _s9_join_terms_qualified(program, res, rule="C08-S9"):
               and unparse(st.targets[0].value) == "terms"]
     if len(stores) < 2:
         raise AnalysisError("natural_join_to_near_sql: the stores of the pass-through terms were not found")
+    side_names = {kw.value.id for c_ in ast.walk(m.node) if isinstance(c_, ast.Call) and isinstance(c_.func, ast.Attribute) and c_.func.attr == "_coalesce_terms"
+                  for kw in c_.keywords if kw.arg in ("sub_view_name_first", "sub_view_name_second") and isinstance(kw.value, ast.Name)}
+    if len(side_names) < 2:
+        raise AnalysisError("natural_join_to_near_sql: the aliases of the two sides (arguments of _coalesce_terms) were not found")
     for st in stores:
         v = st.value
         if isinstance(v, ast.Constant) and v.value is None:
             res.fail_at(rule, m, "join-term-unqualified",
                         f"`{unparse(st)}` leaves the column to be emitted by its bare name: L(k,v) left-joined with a table R described as (k,w) that physically also has a "
                         f"column v fails on SQLite with 'ambiguous column name: v' (Pandas and Polars evaluate it)", st)
-        elif any(isinstance(x, ast.Name) and x.id.endswith("_qqn") for x in ast.walk(v)):
+        elif any(isinstance(x, ast.Name) and x.id in side_names for x in ast.walk(v)):
             res.ok(rule, f"`{unparse(st)[:70]}` names the side")
         else:
             res.abstain(rule, f"join term `{unparse(st)[:60]}`", "neither a bare pass-through nor a side-qualified name")
